@@ -84,6 +84,74 @@ mod verif_standins {
     }
 }
 
+// key generation: well-formed for ordinary randomness and for streams with all-zero windows at every scalar-draw offset
+#[cfg(test)]
+mod verif_standins_keygen {
+    use super::*;
+    use bls12_381::pairing;
+    use rand::{RngCore, SeedableRng};
+
+    /// uniformly random, except that the 64-byte fills number `start .. start+width` are all zero
+    struct ZeroWindow { inner: rand::rngs::StdRng, fills: usize, start: usize, width: usize }
+    impl RngCore for ZeroWindow {
+        fn next_u32(&mut self) -> u32 { self.inner.next_u32() }
+        fn next_u64(&mut self) -> u64 { self.inner.next_u64() }
+        fn fill_bytes(&mut self, dest: &mut [u8]) {
+            self.inner.fill_bytes(dest);
+            if dest.len() == 64 {
+                if self.fills >= self.start && self.fills < self.start + self.width { for b in dest.iter_mut() { *b = 0; } }
+                self.fills += 1;
+            }
+        }
+        fn try_fill_bytes(&mut self, dest: &mut [u8]) -> Result<(), rand::Error> { self.fill_bytes(dest); Ok(()) }
+    }
+    impl rand::CryptoRng for ZeroWindow {}
+
+    fn check_key<const N: usize>(kp: &KeyPair<N>, what: &str) {
+        let (sk, pk) = (&kp.sk, &kp.pk);
+        assert!(!bool::from(sk.x.is_zero()), "STANDIN keygen: secret x is zero ({})", what);
+        for i in 0..N {
+            assert!(!bool::from(sk.ys[i].is_zero()), "STANDIN keygen: secret y_{} is zero ({})", i, what);
+            assert!(sk.ys[i] != sk.x, "STANDIN keygen: y_{} equals x ({})", i, what);
+            for j in 0..i { assert!(sk.ys[i] != sk.ys[j], "STANDIN keygen: y_{} equals y_{} - the secret scalars are not independent draws ({})", i, j, what); }
+        }
+        assert!(!bool::from(pk.g1.is_identity()) && !bool::from(pk.g2.is_identity()) && !bool::from(pk.x2.is_identity()), "STANDIN keygen: identity generator or X~ ({})", what);
+        assert!(pairing(&sk.x1, &pk.g2) == pairing(&pk.g1, &pk.x2), "STANDIN keygen: X and X~ do not share their discrete logarithm ({})", what);
+        for i in 0..N {
+            assert!(!bool::from(pk.y1s[i].is_identity()) && !bool::from(pk.y2s[i].is_identity()), "STANDIN keygen: identity Y_{} ({})", i, what);
+            assert!(pairing(&pk.y1s[i], &pk.g2) == pairing(&pk.g1, &pk.y2s[i]), "STANDIN keygen: Y_{} and Y~_{} do not share their discrete logarithm ({})", i, i, what);
+            assert!(G1Projective::from(pk.y1s[i]) == G1Projective::from(pk.g1) * sk.ys[i], "STANDIN keygen: Y_{} is not g1^y_{} ({})", i, i, what);
+        }
+        // a signature made with the key verifies, and not on another message
+        let mut rng = rand::rngs::StdRng::seed_from_u64(9);
+        let m = Message::new([Scalar::from(3); N]);
+        let sig = Signature::new(&mut rng, kp, &m);
+        assert!(sig.verify(pk, &m), "STANDIN keygen: a signature made with the generated key does not verify ({})", what);
+        let mut other = [Scalar::from(3); N]; other[N - 1] = Scalar::from(4);
+        assert!(!sig.verify(pk, &Message::new(other)), "STANDIN keygen: signature verifies on another message ({})", what);
+        if N >= 2 {
+            // same slot sum, permuted: must not verify (fails when the y_i are equal)
+            let mut a = [Scalar::from(3); N]; a[0] = Scalar::from(1); a[1] = Scalar::from(5);
+            let sig2 = Signature::new(&mut rng, kp, &Message::new(a));
+            let mut b = a; b[0] = Scalar::from(5); b[1] = Scalar::from(1);
+            assert!(!sig2.verify(pk, &Message::new(b)), "STANDIN keygen: signature verifies on a permuted tuple ({})", what);
+        }
+    }
+
+    fn sweep<const N: usize>() {
+        let mut rng = rand::rngs::StdRng::seed_from_u64(0x19);
+        check_key(&KeyPair::<N>::new(&mut rng), "ordinary randomness");
+        for width in 1..=3usize {
+            for start in 0..(2 * N + 6) {
+                let mut zr = ZeroWindow { inner: rand::rngs::StdRng::seed_from_u64(7 + start as u64), fills: 0, start, width };
+                let kp = KeyPair::<N>::new(&mut zr);
+                check_key(&kp, &format!("N = {}, zero window at 64-byte draw #{} width {}", N, start, width));
+            }
+        }
+    }
+    #[test] fn standin_keygen() { sweep::<1>(); sweep::<2>(); sweep::<5>(); }
+}
+
 // test-only constructor for the stand-ins of sibling modules
 #[cfg(test)]
 pub(crate) mod standin_access_impl {
